@@ -88,14 +88,16 @@ def regenerate(modules):
 
 OPM_BUILD_HARD = os.path.join(BUILD, "opm-hard")
 HARD_FLAGS = "-D_GLIBCXX_ASSERTIONS -fsanitize=undefined -fno-sanitize-recover=all"
+OPM_BUILD_ASAN = os.path.join(BUILD, "opm-asan")
+ASAN_FLAGS = "-fsanitize=address -fno-omit-frame-pointer"
 
 
-def cmake_configure(hard=False):
-    bdir = OPM_BUILD_HARD if hard else OPM_BUILD
+def cmake_configure(hard=False, asan=False):
+    bdir = OPM_BUILD_ASAN if asan else (OPM_BUILD_HARD if hard else OPM_BUILD)
     if os.path.exists(os.path.join(bdir, "build.ninja")):
         return 0, ""
     os.makedirs(BUILD, exist_ok=True)
-    flags = f"-O1 -fopenmp -pthread -pipe -Wno-error -D{GUARD}" + (f" -g1 {HARD_FLAGS}" if hard else "")
+    flags = f"-O1 -fopenmp -pthread -pipe -Wno-error -D{GUARD}" + (f" -g1 {ASAN_FLAGS}" if asan else (f" -g1 {HARD_FLAGS}" if hard else ""))
     cmd = ["cmake", "-G", "Ninja", "-S", REPO, "-B", bdir, "-DCMAKE_BUILD_TYPE=None",
            f"-DCMAKE_CXX_FLAGS={flags}", "-DBUILD_TESTING=OFF", "-DOPM_ENABLE_PYTHON=OFF",
            "-DOPM_ENABLE_EMBEDDED_PYTHON=OFF", "-DBUILD_EXAMPLES=OFF", "-DUSE_MPI=OFF",
@@ -104,30 +106,33 @@ def cmake_configure(hard=False):
     return rc, out
 
 
-def build_opm(hard=False):
+def build_opm(hard=False, asan=False):
     """Incremental out-of-tree build of libopmcommon.a from /repo's working tree (hooks on).
     hard=True: second build tree with UBSan (-fno-sanitize-recover) and libstdc++ assertions
     (bounds-checked operator[] on vector/string/array), used by the C20 check."""
-    with Lock("opm-hard" if hard else "opm"):
-        rc, out = cmake_configure(hard)
+    with Lock("opm-asan" if asan else ("opm-hard" if hard else "opm")):
+        rc, out = cmake_configure(hard, asan)
         if rc != 0:
             return False, out
-        rc, out, dt = run(["cmake", "--build", OPM_BUILD_HARD if hard else OPM_BUILD, "--target", "opmcommon", "-j", str(NCPU)])
+        rc, out, dt = run(["cmake", "--build", OPM_BUILD_ASAN if asan else (OPM_BUILD_HARD if hard else OPM_BUILD), "--target", "opmcommon", "-j", str(NCPU)])
         return rc == 0, out[-6000:]
 
 
 OPM_LIBS = ["-L/root/miniconda/lib", "-lfmt", "-lboost_system", "-lboost_filesystem", "-lcjson", "-fopenmp", "-lpthread"]
 
 
-def build_harness(name, extra_src=(), sanitize=False, extra_flags=(), hard=False):
+def build_harness(name, extra_src=(), sanitize=False, extra_flags=(), hard=False, asan=False):
     """Compile harness/<name>.cpp against the freshly built library.  The binary is cached by
     the hash of (sources, library mtime, flags)."""
     src = os.path.join(VERIF, "harness", name + ".cpp")
     outdir = os.path.join(BUILD, "harness")
     os.makedirs(outdir, exist_ok=True)
-    bdir = OPM_BUILD_HARD if hard else OPM_BUILD
+    bdir = OPM_BUILD_ASAN if asan else (OPM_BUILD_HARD if hard else OPM_BUILD)
     lib = os.path.join(bdir, "lib", "libopmcommon.a")
-    if hard:
+    if asan:
+        extra_flags = tuple(extra_flags) + tuple(ASAN_FLAGS.split()) + ("-g1", "-DVERIF_ASAN")
+        name_tag = name + "-asan"
+    elif hard:
         extra_flags = tuple(extra_flags) + tuple(HARD_FLAGS.split()) + ("-g1",)
         name_tag = name + "-hard"
     else:
